@@ -99,7 +99,13 @@ def rules(ctx: Ctx) -> None:
             if n.exc is None:
                 ctx.ob("R10.1", f"raise-in-family:{owner}:re-raise", True, where, "bare re-raise", trivial=True)
                 continue
-            target = n.exc.func if isinstance(n.exc, ast.Call) else n.exc
+            exc = n.exc
+            if isinstance(exc, ast.Name) and prog.local_defs(f, exc.id):
+                # `raise err` where err was built earlier (an exception factory, possibly absorbed): what it was built from decides
+                built = [v for v in prog.value_sources(f, exc) if isinstance(v, ast.Call)]
+                if len(built) == 1:
+                    exc = built[0]
+            target = exc.func if isinstance(exc, ast.Call) else exc
             sym = prog.resolve_expr(target, f.mod, f)
             name = u(target)
             ok = sym[0] == "class" and prog.is_subclass(prog.classes[sym[1]], base_exc)
